@@ -3,18 +3,78 @@ import ClipVerif.Spec.Decision
 namespace Proofs.C01
 open Gen Spec
 
+theorem shl_succ_ne_one (q e : Nat) : q <<< (e + 1) ≠ 1 := by
+  rw [Nat.shiftLeft_eq, Nat.pow_succ, ← Nat.mul_assoc]
+  omega
+
+/-- rounding to 53 significant bits hits 1 only at 1 (beyond 53 bits the result is even) -/
+theorem round53Nat_eq_one (n : Nat) : F.round53Nat n = 1 ↔ n = 1 := by
+  unfold F.round53Nat
+  simp only
+  split
+  · exact Iff.rfl
+  · rename_i h
+    constructor
+    · intro h1
+      exfalso
+      have he : F.bitlen n - 53 = (F.bitlen n - 53 - 1) + 1 := by omega
+      rw [he] at h1
+      exact shl_succ_ne_one _ _ h1
+    · intro h1
+      subst h1
+      exfalso
+      apply h
+      decide
+
+theorem abs_aux (z : Int) (m : Nat) (h : m = 1 ↔ z = 1 ∨ z = -1) :
+    (if (if z < 0 then -(m:Int) else m) < 0 then -(if z<0 then -(m:Int) else m) else (if z < 0 then -(m:Int) else m)) = 1
+      ↔ (z = 1 ∨ z = -1) := by
+  rw [← h]
+  by_cases hz : z < 0
+  · simp only [hz, if_true]
+    by_cases hm : -(m:Int) < 0
+    · simp only [hm, if_true]; omega
+    · simp only [hm, if_false]; omega
+  · simp only [hz, if_false]
+    have : ¬ ((m:Int) < 0) := by omega
+    simp only [this, if_false]; omega
+
+/-- `math.Abs(float64(wc)) == 1` iff `wc = ±1`, for wind counts of any magnitude -/
+theorem abs_round53_eq_one (z : Int) : F.abs (F.ofInt z) = 1 ↔ (z = 1 ∨ z = -1) := by
+  have h := round53Nat_eq_one z.natAbs
+  have h2 : z.natAbs = 1 ↔ (z = 1 ∨ z = -1) := by
+    constructor
+    · intro h; rcases Int.natAbs_eq z with h3 | h3 <;> rw [h] at h3 <;> simp [h3]
+    · rintro (h | h) <;> subst h <;> rfl
+  rw [h2] at h
+  exact abs_aux z _ h
+
 theorem contributing_closed_correct (ct fr pt : Nat) (lo w2 : Int)
     (hct : ct = 1 ∨ ct = 2 ∨ ct = 3 ∨ ct = 4) (hfr : fr = 1 ∨ fr = 2 ∨ fr = 3) (hpt : pt = 0 ∨ pt = 1) :
     clipperBase_isContributingClosed (mkEng ct fr) (mkEdge pt (encWind lo) w2) = separates ct fr pt lo w2 := by
-  sorry
+  have hab := abs_round53_eq_one (encWind lo)
+  rcases hct with rfl | rfl | rfl | rfl <;> rcases hfr with rfl | rfl | rfl <;> rcases hpt with rfl | rfl <;>
+    simp [clipperBase_isContributingClosed, mkEng, mkEdge, separates, resultIn, specIn, combine, filled, getPolyType,
+      C_Positive, C_Negative, C_NonZero, C_Intersection, C_Union, C_Difference, C_Xor, C_Subject, Id.run, pure, hab] <;>
+    unfold encWind <;> grind
 
 theorem contributing_closed_correct_evenodd (ct pt : Nat) (lo w2 : Int) (wc : Int)
     (hct : ct = 1 ∨ ct = 2 ∨ ct = 3 ∨ ct = 4) (hpt : pt = 0 ∨ pt = 1) (hwc : wc = 1 ∨ wc = -1) :
     clipperBase_isContributingClosed (mkEng ct 0) (mkEdge pt wc (w2 % 2)) = separates ct 0 pt lo w2 := by
-  sorry
+  -- (with EvenOdd the engine never looks at the edge's own count, so `hwc` is not needed)
+  have _ := hwc
+  rcases hct with rfl | rfl | rfl | rfl <;> rcases hpt with rfl | rfl <;>
+    simp [clipperBase_isContributingClosed, mkEng, mkEdge, separates, resultIn, specIn, combine, filled, getPolyType,
+      C_Positive, C_Negative, C_NonZero, C_Intersection, C_Union, C_Difference, C_Xor, C_Subject, Id.run, pure] <;>
+    grind
 
 theorem contributing_closed_other (ct fr pt : Nat) (wc w2 : Int) (hct : ct = 0 ∨ 4 < ct) :
     clipperBase_isContributingClosed (mkEng ct fr) (mkEdge pt wc w2) = false := by
-  sorry
+  have h1 : ct ≠ 1 := by omega
+  have h2 : ct ≠ 2 := by omega
+  have h3 : ct ≠ 3 := by omega
+  have h4 : ct ≠ 4 := by omega
+  simp [clipperBase_isContributingClosed, mkEng, mkEdge,
+      C_Positive, C_Negative, C_NonZero, C_Intersection, C_Union, C_Difference, C_Xor, Id.run, pure, h1, h2, h3, h4]
 
 end Proofs.C01
